@@ -396,6 +396,40 @@ package httpserver
 //@   ensures [scheme_and_separator_dropped] sep() > -1 ==> result == a.Original[sep()+3:]
 //@   ensures [no_scheme_means_whole_address] sep() == -1 ==> result == a.Original
 
+//@ unit logger_lines frames=on props=C20 filter=`httpserver\.Logger\)\.(Println|Printf)$`
+//@ // "request text is inserted verbatim": an access-log line that is already expanded is written with Println, never used
+//@ // as a format string (a '%' that came from the request would be read as a verb); each method takes the file lock
+//@ // around exactly one write and releases it.
+//@ ghost verbatimLines int
+//@ ghost formattedLines int
+//@ extern (*log.Logger).Println
+//@   modifies ghost:verbatimLines
+//@   ensures verbatimLines == old(verbatimLines) + 1
+//@ extern (*log.Logger).Printf
+//@   modifies ghost:formattedLines
+//@   ensures formattedLines == old(formattedLines) + 1
+//@ func (Logger).Println
+//@   requires l.fileMu != nil && l.Logger != nil
+//@   modifies ghost:verbatimLines, ghost:formattedLines, ghost:held
+//@   ensures [written_verbatim_once] verbatimLines == old(verbatimLines) + 1 && formattedLines == old(formattedLines)
+//@ func (Logger).Printf
+//@   requires l.fileMu != nil && l.Logger != nil
+//@   modifies ghost:verbatimLines, ghost:formattedLines, ghost:held
+//@   ensures [formatted_once] formattedLines == old(formattedLines) + 1 && verbatimLines == old(verbatimLines)
+
+//@ unit new_replacer props=C20 filter=`httpserver\.NewReplacer$`
+//@ // The replacer a directive asks for substitutes ITS OWN marker for empty values (the log directive's "-"), reads the
+//@ // request and the recorder it was given, and shares the request-body capture and custom placeholders of the replacer
+//@ // already installed in the request context, if there is one.
+//@ extern (*net/http.Request).Context
+//@ extern invoke:(context.Context).Value
+//@ extern io.TeeReader
+//@ func newLimitWriter
+//@   ensures result != nil
+//@ func NewReplacer
+//@   requires r != nil
+//@   ensures [own_empty_value_request_and_recorder] result != nil && (*replacer)(result).emptyValue == emptyValue && (*replacer)(result).request == r && (*replacer)(result).responseRecorder == rr
+
 //@ unit split_host_path frames=on props=C01 filter=`vhostTrie\)\.splitHostPath$`
 //@ // "host matching ignores letter case and port": the key both Insert and Match look up is the lower-cased text before the
 //@ // first slash, with the port removed exactly when net.SplitHostPort accepts it as host:port (hostOf/hasPort below ARE
